@@ -48,6 +48,7 @@ def run_fw(pid, tier, seed, replay, ctx, gens, tags, mech=None, budget=None):
     """
     sh = ctx["sh"]
     texts = []
+    crashed = []
     if replay:
         rc, out = sh([ctx["HBIN"], "fw-replay", "--seed", str(seed)], input_bytes=open(replay, "rb").read())
         texts.append(("replay", out))
@@ -58,8 +59,26 @@ def run_fw(pid, tier, seed, replay, ctx, gens, tags, mech=None, budget=None):
             texts.append(("corpus:" + os.path.basename(c), out))
         for kind, nq, nt in gens:
             n = nq if tier == "quick" else nt
-            rc, out = sh([ctx["HBIN"], "fw-gen", "--kind", kind, "--seed", str(seed), "--cases", str(n)], timeout=3600)
-            if rc != 0:
+            if kind.startswith("exh"):
+                # bounded-exhaustive family: exh:<depth>:<quick stride>:<thorough stride>
+                _, depth, sq, st = kind.split(":")
+                stride = sq if tier == "quick" else st
+                rc, out = sh([ctx["HBIN"], "fw-exh", "--depth", depth, "--stride", stride, "--start", str(seed % int(stride)),
+                              "--seed", str(seed), "--cases", str(n)], timeout=7200)
+                out = "\n".join(l for l in out.split("\n") if not l.startswith("exh depth="))
+            else:
+                rc, out = sh([ctx["HBIN"], "fw-gen", "--kind", kind, "--seed", str(seed), "--cases", str(n)], timeout=3600)
+            if rc != 0 and not kind.startswith("exh"):
+                # the harness process died (stack overflow, abort, ...): the crashing case is the one after
+                # the last complete block; fetch its inputs with a dry run and report it as a failure of the
+                # implementation on that input
+                done = out.count("\nend\n") + (1 if out.startswith("end\n") else 0)
+                rc2, dry = sh([ctx["HBIN"], "fw-gen", "--kind", kind, "--seed", str(seed), "--cases", str(n), "--only", str(done), "--dry"], timeout=600)
+                crashed.append((f"{pid}:process crashed (exit {rc}) kind={kind}",
+                                f"the harness process running the real framework died (exit status {rc}, e.g. stack overflow / abort) on this case:\n" + dry))
+                # keep what completed before the crash
+                out = out[: out.rfind("\nend\n") + 5] if "\nend\n" in out else ""
+            elif rc != 0:
                 return {"evaluations": 0, "model_disagreements": [f"harness failed for kind {kind}: {out[-500:]}"]}
             texts.append((kind, out))
     evaluations = 0
@@ -111,7 +130,7 @@ def run_fw(pid, tier, seed, replay, ctx, gens, tags, mech=None, budget=None):
             dis.append(f"driver reported {seen_cases} cases of {len(blocks)} for {name}")
     # keep one replay per distinct monitor key
     uniq = {}
-    for k, t in mons:
+    for k, t in mons + crashed:
         uniq.setdefault(k, t)
     return {
         "evaluations": evaluations,
@@ -137,9 +156,11 @@ def fw(gens, tags, mech=None, **kw):
 
 
 PROPS = {
-    "C05": fw([("general", 1500, 40000)], ALL_FW_TAGS,
-              assumptions=["the correspondence samples histories; the bounded-exhaustive family of the property's quantifier is part of the thorough tier"]),
-    "C01": fw([("general", 2500, 60000)], {"res", "len", "L"}, mech=["LR", "CZ", "SIG", "END", "batch"],
+    "C05": fw([("general", 1500, 40000), ("exh:2:677:1", 2000, 1400000), ("exh:3:9497:97", 2000, 200000)], ALL_FW_TAGS,
+              assumptions=["the correspondence samples histories; the bounded-exhaustive family of the property's quantifier (8 machine sets of 1-3 small machines, full event alphabet "
+                           "with known/unknown ids, 4 clock patterns incl. backwards, 6^3 scripted draw words around the dyadic thresholds) is enumerated completely at depth 2 in the thorough "
+                           "tier and strided at depth 3; quick tier strides both"]),
+    "C01": fw([("general", 2500, 60000), ("czcycle", 1500, 40000)], {"res", "len", "L"}, mech=["LR", "CZ", "SIG", "END", "batch"],
               assumptions=["u64 packet counters are modelled as unbounded naturals (overflow needs 2^64 reported events)",
                            "machines have the shape of the Rust types (13 transition slots); proved for everything the bincode decoder accepts (C11)"]),
     "C02": fw([("general", 2500, 40000)], {"A", "RP", "G", "res", "len"}, mech=["aP"],
